@@ -304,6 +304,11 @@ func rulesC05(c *Ctx) {
 	c.scannedLocalsReachResult("R8", "GetMeltQuote", "GetMeltQuoteByPaymentRequest")
 	c.ruleUnlockCallers("R9")
 	c.ruleResolveBeforeAnswer("R5")
+	R.Rule("R11", "what is released / marked spent: in the melt operation the request's inputs (their Ys), in the poll every row the pending table holds for the quote's id (Y for the release, the proof rebuilt field by field for the spent table)", 8)
+	c.ruleMeltEffectOperands("R11")
+	R.Rule("R10", "the melt answer reports what was stored: after a successful melt-quote write the returned quote carries the written state and preimage (operation, poll, internal settlement and helpers new on this tree)", 8)
+	c.ruleAnswerReportsStored("R10", []*ssa.Function{c.op("R10", "/v1/melt/{method}"), c.op("R10", "/v1/melt/quote/{method}/{quote_id}")},
+		roleSetMelt, roleReadMelt, map[string]string{"state": "State", "preimage": "Preimage"}, 8)
 }
 
 // meltDecisionTable decides the effect/outcome table of the melt op and the melt-quote poll
